@@ -173,16 +173,21 @@ Proof.
     + rewrite rd_skipn by lia. f_equal. lia.
 Qed.
 
+Ltac kill_len_nil :=
+  repeat match goal with
+         | |- context [@len ?A (@nil ?B)] => change (@len A (@nil B)) with 0
+         | H : context [@len ?A (@nil ?B)] |- _ => change (@len A (@nil B)) with 0 in H
+         end.
+
 Ltac rd_norm :=
-  change (len (@nil cell)) with 0 in *;
+  kill_len_nil;
   repeat (rewrite ?rd_fill, ?rd_upd, ?rd_firstn, ?rd_repeat, ?rd_app', ?rd_cons', ?rd_skipn', ?rd_nil,
           ?len_fill, ?len_upd, ?len_firstn, ?len_app, ?len_repeat, ?len_cons, ?len_skipn);
-  change (len (@nil cell)) with 0 in *.
+  kill_len_nil.
 
 Ltac rd_norm_in H :=
-  change (len (@nil cell)) with 0 in H;
   repeat (rewrite ?len_fill, ?len_upd, ?len_firstn, ?len_app, ?len_repeat, ?len_cons, ?len_skipn in H);
-  change (len (@nil cell)) with 0 in H.
+  kill_len_nil.
 
 Ltac cases_if :=
   repeat match goal with |- context [if ?b then _ else _] => destruct b eqn:? end.
